@@ -10,6 +10,7 @@ import copy
 import io
 
 from vlib import core, ev, wire, gen, histories as H
+from props import c14
 
 LEVEL = 'exploration'
 RULE = ('dumps = scenario content on 2-3 threads/processes; configurations = tid x class lists x subclass lists (incl. BSD '
@@ -233,6 +234,47 @@ def check_reconfigured(res, rng, dump, unfiltered):
             return
 
 
+def long_capture(res, ctx, rng, n_workers):
+    """Scale ladder: process and thread filters on a long capture (thousands of short-lived threads); membership is
+    judged with the incremental table model of C14 (process text of the emitting thread at the trace's trigger)."""
+    from pykdebugparser.pykdebugparser import PyKdebugParser
+    dump = c14.build_long_dump(rng, n_workers)
+    case = {'file': dump['data'], 'workers': n_workers}
+    _, updating, texts = c14.walk_tables(dump, False)
+    index = {e.timestamp: k for k, e in enumerate(dump['events'])}
+    try:
+        unfiltered = list(PyKdebugParser().traces(io.BytesIO(dump['data'])))
+    except Exception as x:
+        res.violation(f'c13-raises-{core.exc_name(x)}', f'long capture: {x!r}', case)
+        return
+
+    def member(text, proc):
+        name, _, pid = text.rpartition('(')
+        return not text.startswith('Error: tid') and proc in (name, pid.rstrip(')'))
+    for proc in ('daemon0', '100', 'worker7', str(5000 + 3 * (n_workers // 6)), 'nosuch'):
+        p = PyKdebugParser()
+        p.filter_process = proc
+        try:
+            got = [key(t) for t in p.traces(io.BytesIO(dump['data']))]
+        except Exception as x:
+            res.violation(f'c13-raises-{core.exc_name(x)}', f'long capture, process={proc!r}: {x!r}', case)
+            return
+        gs = set(got)
+        want = []
+        for t in unfiltered:
+            k = index[t.ktraces[-1].timestamp]
+            before, after = texts[k]
+            if member(after, proc) or (updating[k] and member(before, proc) and key(t) in gs):
+                if member(after, proc) or key(t) in gs:
+                    want.append(key(t))
+        res.count('long_capture_requests')
+        res.count('long_capture_traces_selected', len(want))
+        if got != want:
+            res.violation('c13-filtered-differs', f'long capture ({n_workers} short-lived threads), process={proc!r}: {len(got)} '
+                          f'traces, the unfiltered run restricted to the filter has {len(want)}', dict(case, process=proc))
+            return
+
+
 def run(ctx):
     res = core.Result()
     rng = ctx.rng
@@ -259,6 +301,8 @@ def run(ctx):
         check_reconfigured(res, rng, dump, unfiltered)
         prev = dump
     if ctx.shard == 0:
+        for n in ctx.pick((2600,), (2600, 12000)):
+            long_capture(res, ctx, rng, n)
         res.sample({'configuration': {'classes': [4], 'subclasses': ['0x301']},
                     'expected': 'BSD traces and lookup traces (requested by subclass); kernel trace-string traces consumed '
                                 'but not reported', 'history': ['traces', 'formatted_traces', 'traces']})
@@ -275,6 +319,7 @@ def run(ctx):
     res.require('formatted_requests_compared', 10)
     res.require('process_filters_on_dumps_with_map_updates', 10)
     res.require('reconfigured_requests', 20)
+    res.require('long_capture_traces_selected', 100)
     return res
 
 
